@@ -92,6 +92,12 @@ def body(chk: core.Check):
     for r in res_c[:2]:
         chk.sample({"harness": "h07_classify.classify", "partition": r["env"], "status": r["status"], "seconds": r["seconds"]})
 
+    # (3) wiring: the emitted sync/async client methods hand rpc, coerced request, first response and the caller's
+    # retry / timeout / metadata to the pager (shared client harness)
+    from checks import _client
+    gc = _client.render(chk)
+    _client.run_funcs(chk, gc, ["wire_list_books"], "pager-wiring", t_pager, partitions=_client.KIND_PARTS)
+
     # sensitivity canary: pager without token threading must be refuted
     mdir = gen.scratch_dir()
     mutate_pager(pagers_path, mdir)
@@ -101,6 +107,9 @@ def body(chk: core.Check):
 
 
 def replay(chk, data):
+    if str(data.get("harness", "")).endswith("h_client.py"):
+        from checks import _client
+        return _client.replay(chk, data)
     g = gen.generate(apis.paging_api(), parameter="transport=grpc+rest")
     env = dict(data.get("env") or {})
     env["VERIF_EMITTED"] = g.outdir
